@@ -55,7 +55,7 @@ pub fn run_line(line: &str) -> String {
             };
             match r {
                 Ok(()) => format!("ok {}", hex(&out)),
-                Err(_) => "err".to_string(),
+                Err(e) => format!("err {}", e.to_string().replace(' ', "_")),
             }
         }
         // ztrain <max-size> <sample-hex>... : libzstd dictionary trainer
@@ -100,6 +100,93 @@ pub fn run_line(line: &str) -> String {
             }
             format!("ok {}", outs.join(" "))
         }
+        // rencm <level 0|1> <window> <frames> : frames separated by '/', blocks by '+';
+        // block = <data-hex>:<ll>,<off>,<ml>;...  (a parse of the block: literal run, then match; the rest are
+        // trailing literals) or <data-hex>:- (no sequences) ; a block spec starting with 'p' is a partial last block.
+        // One reused FrameCompressor with a user-implemented Matcher replays the parses.
+        "rencm" => {
+            let level = if w[1] == "0" {
+                ruzstd::encoding::CompressionLevel::Uncompressed
+            } else {
+                ruzstd::encoding::CompressionLevel::Fastest
+            };
+            let window: u64 = w[2].parse().unwrap();
+            let frames: Vec<&str> = w[3].split('/').collect();
+            let mut comp = ruzstd::encoding::FrameCompressor::new_with_matcher(
+                Scripted { blocks: std::collections::VecDeque::new(), window, last: Vec::new(), seqs: Vec::new() },
+                level,
+            );
+            let mut outs = Vec::new();
+            for fr in frames {
+                let mut data = Vec::new();
+                let mut blocks = std::collections::VecDeque::new();
+                for b in fr.split('+') {
+                    let (partial, b) = if let Some(r) = b.strip_prefix('p') { (true, r) } else { (false, b) };
+                    let mut it = b.split(':');
+                    let d = unhex(it.next().unwrap());
+                    let sq = it.next().unwrap_or("-");
+                    let seqs: Vec<(usize, usize, usize)> = if sq == "-" {
+                        Vec::new()
+                    } else {
+                        sq.split(';')
+                            .map(|t| {
+                                let v: Vec<usize> = t.split(',').map(|x| x.parse().unwrap()).collect();
+                                (v[0], v[1], v[2])
+                            })
+                            .collect()
+                    };
+                    blocks.push_back((d.len() + partial as usize, seqs));
+                    data.extend_from_slice(&d);
+                }
+                // replace the matcher's script for this frame
+                let m = comp.replace_matcher(Scripted { blocks: std::collections::VecDeque::new(), window, last: Vec::new(), seqs: Vec::new() });
+                let _ = comp.replace_matcher(Scripted { blocks, window, last: m.last, seqs: Vec::new() });
+                comp.set_source(crate::prog::Src::new(data, 0));
+                comp.set_drain(Vec::new());
+                comp.compress();
+                let out: Vec<u8> = comp.take_drain().unwrap();
+                outs.push(hex(&out));
+            }
+            format!("ok {}", outs.join(" "))
+        }
         other => format!("unknown {}", other),
+    }
+}
+
+
+/// a user-implemented match finder that replays a given parse of each block
+struct Scripted {
+    blocks: std::collections::VecDeque<(usize, Vec<(usize, usize, usize)>)>,
+    window: u64,
+    last: Vec<u8>,
+    seqs: Vec<(usize, usize, usize)>,
+}
+
+impl ruzstd::encoding::Matcher for Scripted {
+    fn get_next_space(&mut self) -> Vec<u8> {
+        let (len, seqs) = self.blocks.pop_front().unwrap_or((1, Vec::new()));
+        self.seqs = seqs;
+        vec![0; len.max(1)]
+    }
+    fn get_last_space(&mut self) -> &[u8] {
+        &self.last
+    }
+    fn commit_space(&mut self, space: Vec<u8>) {
+        self.last = space;
+    }
+    fn skip_matching(&mut self) {}
+    fn start_matching(&mut self, mut handle_sequence: impl for<'a> FnMut(ruzstd::encoding::Sequence<'a>)) {
+        let mut pos = 0;
+        for (ll, off, ml) in self.seqs.iter() {
+            handle_sequence(ruzstd::encoding::Sequence::Triple { literals: &self.last[pos..pos + ll], offset: *off, match_len: *ml });
+            pos += ll + ml;
+        }
+        if pos < self.last.len() {
+            handle_sequence(ruzstd::encoding::Sequence::Literals { literals: &self.last[pos..] });
+        }
+    }
+    fn reset(&mut self, _level: ruzstd::encoding::CompressionLevel) {}
+    fn window_size(&self) -> u64 {
+        self.window
     }
 }
